@@ -51,6 +51,29 @@ def strat(table, T):
 
 def gen_cases(tier, rng):
     cases = []
+    # weakly coupled chains and a symmetric star with ONE bath object shared by all sites: exciton states localised away from the first site,
+    # pairs of states that a single site hardly couples - the time-dependent rates must still reach their golden-rule values
+    for i in range(4 if tier == "quick" else 24):
+        N = 3 + i % 2
+        T = float([300.0, 200.0, 350.0][i % 3])
+        s = build.gen_system(rng, N=N, T=T, dt=1.0, dipoles=False, shared_bath=True, jmax=200.0, spread=300.0, lam=(40.0, 100.0), tau=(40.0, 120.0))
+        e0 = r3(rng.uniform(11000, 13000))
+        if i % 4 == 3:
+            # star: site 0 in the middle, equal couplings to equivalent outer sites
+            s["E"] = [e0] + [e0 + 120.0] * (N - 1)
+            J = numpy.zeros((N, N))
+            for k in range(1, N):
+                J[0, k] = J[k, 0] = 70.0
+        else:
+            s["E"] = [e0 + r3(k * rng.uniform(120.0, 200.0)) for k in range(N)]
+            J = numpy.zeros((N, N))
+            for k in range(N - 1):
+                J[k, k + 1] = J[k + 1, k] = r3(rng.uniform(20.0, 45.0))
+        s["J"] = J.tolist()
+        for b in s["bath"]:
+            b["ftype"] = "OverdampedBrownian"
+        s["Nt"] = int(min(1500, max(600, 14 * max(b["cortime"] for b in s["bath"]))))      # the bath function has decayed on the axis
+        cases.append({"cls": "redfield", "sys": s, "force_td": True, "cost": 2 + N * 6})
     n = 60 if tier == "quick" else 400
     for i in range(n):
         N = int(rng.integers(2, 6 if tier == "thorough" else 5))
@@ -259,7 +282,7 @@ def run_case(case, ctx):
         ctx.note("loose_rel_dev", dl["rel_dev"] if dl else 0.0)
         ctx.note("T", T)
         # time-dependent rate matrix: zero at t=0, conserving at every time, golden rule at its last time index
-        if N <= 3 and desc["Nt"] <= 1500:
+        if (N <= 3 or case.get("force_td")) and desc["Nt"] <= 1500:
             with ctx.lib("TDRedfieldRateMatrix"):
                 from quantarhei.qm import TDRedfieldRateMatrix
                 TD = numpy.array(TDRedfieldRateMatrix(ham, agg.get_SystemBathInteraction()).data, dtype=float)
